@@ -1,7 +1,7 @@
 /- Line-protocol front end for the PT-utilization model (C11 correspondence). Core only.
 
 `c11 <core> <stats:0|1> <rows> <events>` with `rows = kernel,tag,cycles;…` (`tag` = `o:<cat>` | `na` |
-`none`), `events = name,pid,ts,dur,hasTS;…` (all X slices in pipeline order); strings percent-encoded,
+`none`), `events = name,pid,ts,dur,hasTS,fn;…` (`fn` = `-` | `i:<int>` | `s:<str>`: args.fn_idx) (all X slices in pipeline order); strings percent-encoded,
 `-` for an empty list.  Answer: `A=<ann>;… R=<row>;…` with `ann = pt,cat,ts:val~ts:val` (one per kernel
 slice) and `row = pid,cat,time,fracTime,calls,ideal,idealCyc,fracIdeal,ptUtil`. -/
 import AiuVerif.Basic
@@ -26,12 +26,20 @@ def parseRow (s : String) : Option LogRow :=
     | _, _, _ => none
   | _ => none
 
+/-- `-` (key absent) | `i:<int>` | `s:<percent-encoded string>` -/
+def parseFn (s : String) : Option (Option FnIdx) :=
+  if s = "-" then some none
+  else match s.splitOn ":" with
+    | ["i", v] => (parseInt? v).map (fun i => some (.int i))
+    | ["s", v] => (C12.dec v).map (fun x => some (.str x))
+    | _ => none
+
 def parseEv (s : String) : Option UEv :=
   match s.splitOn "," with
-  | [name, pid, ts, dur, h] =>
-    match C12.dec name, parseInt? pid, parseRat? ts, parseRat? dur with
-    | some n, some p, some t, some d => some ⟨n, p, t, d, h == "1"⟩
-    | _, _, _, _ => none
+  | [name, pid, ts, dur, h, fn] =>
+    match C12.dec name, parseInt? pid, parseRat? ts, parseRat? dur, parseFn fn with
+    | some n, some p, some t, some d, some f => some ⟨n, p, t, d, h == "1", f⟩
+    | _, _, _, _, _ => none
   | _ => none
 
 def showAnn (a : Ann) : String :=
